@@ -244,6 +244,8 @@ def driver_excludes_delimiters(ctx, g):
     tl = g.params[0]
     overriding = sorted(c.name for c in repo.classes.values() if '_groupable_tokens' in c.methods and c.name != 'TokenList')
     gd = Guards(g.node)
+    from ..astutil import alias_map, canon_text
+    amap = alias_map(g.node)
     calls = [c for c in own_nodes(g.node) if isinstance(c, ast.Call) and is_attr(c.func, 'group_tokens', tl)]
     if len(calls) != 1:
         return {}, 'no single group_tokens call'
@@ -255,6 +257,9 @@ def driver_excludes_delimiters(ctx, g):
     for n in ast.walk(g.node):
         if isinstance(n, ast.If):
             t = n.test
+            arm = n.body
+            if isinstance(t, ast.UnaryOp) and isinstance(t.op, ast.Not):
+                t, arm = t.operand, n.orelse
             if isinstance(t, ast.Call) and is_name(t.func, 'isinstance') and is_name(t.args[0], tl):
                 try:
                     v = ctx.folder.eval(t.args[1], g.mod)
@@ -262,15 +267,15 @@ def driver_excludes_delimiters(ctx, g):
                     continue
                 names = {x.cls.name for x in (v if isinstance(v, tuple) else (v,)) if isinstance(x, ClsRef)}
                 closing_vars = {}
-                for s_ in n.body:
+                for s_ in arm:
                     # `_, closing = tlist.token_prev(len(tlist.tokens), skip_cm=True)`: the last child that is not whitespace/comment
                     if isinstance(s_, ast.Assign) and isinstance(s_.targets[0], ast.Tuple) and len(s_.targets[0].elts) == 2 \
                             and isinstance(s_.value, ast.Call) and is_attr(s_.value.func, 'token_prev', tl) and s_.value.args \
-                            and src(s_.value.args[0]) == f'len({tl}.tokens)' \
+                            and canon_text(src(s_.value.args[0]), amap) == f'len({tl}.tokens)' \
                             and any(k.arg == 'skip_cm' and isinstance(k.value, ast.Constant) and k.value.value is True for k in s_.value.keywords):
                         closing_vars[s_.targets[0].elts[1].id] = 'skips-comments'
                     if isinstance(s_, ast.Assign) and is_name(s_.targets[0]) and isinstance(s_.value, ast.Tuple):
-                        elts = [src(e) for e in s_.value.elts]
+                        elts = [e_ if e_ in closing_vars else canon_text(e_, amap) for e_ in (src(e) for e in s_.value.elts)]
                         last = next((e for e in elts if e == f'{tl}.tokens[-1]' or e in closing_vars), None)
                         if f'{tl}.tokens[0]' in elts and last is not None and set(overriding) <= names:
                             dvars[s_.targets[0].id] = names
